@@ -202,6 +202,16 @@ class PartialModel:
             return obj
         return cls.to_partial(obj, ignore_invalid=ignore_invalid)
 
+    def _as_partial(self, val):
+        """Return passed model instance as instance of a suitable partial model.
+
+        Values that already are partial models (e.g. nested fields of a parsed
+        partial) are returned as they are, other models are converted.
+        """
+        if isinstance(val, PartialModel):
+            return val
+        return self.__partial_fac__.get_partial(type(val)).cast(val)
+
     def _update_field(
         self,
         v_old,
@@ -236,8 +246,8 @@ class PartialModel:
         old_is_model = isinstance(v_old, self.__partial_fac__.base_model)
         new_is_model = isinstance(v_new, self.__partial_fac__.base_model)
         if old_is_model and new_is_model:
-            v_old_p = self.__partial_fac__.get_partial(type(v_old)).cast(v_old)
-            v_new_p = self.__partial_fac__.get_partial(type(v_new)).cast(v_new)
+            v_old_p = self._as_partial(v_old)
+            v_new_p = self._as_partial(v_new)
             new_subclass_old = issubclass(type(v_new_p), type(v_old_p))
             old_subclass_new = issubclass(type(v_old_p), type(v_new_p))
             if new_subclass_old or old_subclass_new:
